@@ -189,6 +189,10 @@ class C05(Prop):
                  consts=dict(base, MinN=2, MaxN=2, MaxK=1, MaxA=1, ShapesUsed={"three"}, OpsUsed={"open", "exec", "execfail", "one", "all"}, Depth=8 if big else 7)),
             dict(name="paths_star", mode="paths",
                  consts=dict(base, MinN=2, MaxN=2, MaxK=1, MaxA=1, ShapesUsed={"star"}, OpsUsed={"open", "exec", "reshape", "one"}, Depth=9 if big else 8)),
+            # arraysize set before / between executes and fetchone (rows an implementation converts ahead of time must not outlive
+            # their result set): all sequences
+            dict(name="paths_asz", mode="paths",
+                 consts=dict(base, MinN=3, MaxN=3, MaxK=1, MaxA=2, ShapesUsed={"three"}, OpsUsed={"open", "exec", "asz", "one", "all"}, Depth=8 if big else 7)),
             # every transition of the state graph, one shortest path each
             dict(name="edges", mode="edges", sample=None if big else 5000,
                  consts=dict(base, MaxN=3, MaxK=4, MaxA=2, ShapesUsed=all_shapes if big else {"three", "aliasdup", "types"}, Depth=7,
